@@ -1,6 +1,8 @@
 """C16 - layout, comments and alternative spellings do not change the compiled ops (DESIGN.md 4, C16)."""
 from __future__ import annotations
 
+import os
+
 from hypothesis import strategies as st
 
 from vf import canon, gen_macro, gen_prog, render
@@ -35,6 +37,9 @@ def strategy(tier):
 
 def evaluate(case, stt):
     fails = []
+    if case.get("kind") == "twin":
+        r = twin_compare(case["files"])
+        return [Failure(r[0], r[1])] if r else []
     prog = case["prog"]
     r1 = render.render(prog, render.Tape(case["t1"]), render.Tape(case["l1"]) if case["l1"] else None)
     r2 = render.render(prog, render.Tape(case["t2"]), render.Tape(case["l2"]), cr=True)
@@ -69,3 +74,106 @@ def evaluate(case, stt):
 def shrink_candidates(case):
     for p in gen_prog.shrink_candidates(case["prog"]):
         yield dict(case, prog=p)
+
+
+# --------------------------------------------------------------------------------------
+# twin-library stage: layout changes in an IMPORTED file
+# --------------------------------------------------------------------------------------
+def _twin_workspace(prog):
+    """A generated single-file macro program becomes a project: its macros go, renamed with the suffix _a and _b, into
+    two library files with the SAME text apart from that letter (a copied library - every position in the two files
+    coincides); the main file imports both and holds the routines twice, once calling each copy."""
+    import copy
+
+    def renamed(suffix):
+        p = copy.deepcopy(prog)
+
+        def fn(s_, d):
+            if s_["k"] == "mcall":
+                s_["name"] += suffix
+
+        for m in p["macros"]:
+            m["name"] += suffix
+            gen_prog.walk(m["body"], fn)
+        for r in p["routines"]:
+            gen_prog.walk(r["body"], fn)
+        return p
+
+    pa, pb = renamed("_a"), renamed("_b")
+    n = len(prog["routines"])
+    for r in pb["routines"]:
+        r["id"] += n
+        if r.get("name"):
+            r["name"] += "_b"
+    lib = lambda p: render.render({"imports": [], "macros": p["macros"], "routines": []}).text  # noqa
+    main = render.render({"imports": ["./lib_a.exps", "./lib_b.exps"], "macros": [], "routines": pa["routines"] + pb["routines"]}).text
+    return {"lib_a.exps": lib(pa), "lib_b.exps": lib(pb), "main.exps": main}
+
+
+def twin_compare(files, stats=None):
+    import shutil
+    import tempfile
+
+    from vf.cut import compile_text as plain_compile
+
+    d = tempfile.mkdtemp(prefix="vf-c16twin-")
+    try:
+        out = []
+        for variant in (0, 1):
+            for name, text in files.items():
+                if variant and name == "lib_b.exps":
+                    text = "// this copy was moved down a little\n\n" + text
+                with open(os.path.join(d, name), "w", encoding="utf-8") as fh:
+                    fh.write(text)
+            main = os.path.join(d, "main.exps")
+            c, e = call_guard(lambda: plain_compile(files["main.exps"], main))
+            out.append((c, e))
+        (c1, e1), (c2, e2) = out
+        if (e1 is None) != (e2 is None):
+            return "twin:one_rejected", f"one layout of lib_b.exps compiles, the other raises {(e1 or e2)[1]}"
+        if e1 is not None:
+            if stats is not None:
+                stats.count("twin_both_rejected")
+            return None
+        a, b = canon.canon_compile_result(c1), canon.canon_compile_result(c2)
+        if stats is not None and a["marks"]:
+            stats.count("twin_with_marks")
+        for key in ("ops", "table", "marks"):
+            df = canon.first_diff(a[key], b[key], key)
+            if df:
+                return f"twin:differs:{key}", f"comment and blank line in front of lib_b.exps: {df}\n--- lib_a.exps / lib_b.exps:\n{files['lib_a.exps']}\n--- main.exps:\n{files['main.exps']}"
+        return None
+    finally:
+        shutil.rmtree(d, ignore_errors=True)
+
+
+def extra(ctx):
+    """C16 for imported files: a comment and a blank line in front of one of two otherwise identical library files
+    changes neither ops, routine tables nor position marks of the main file. Cases are drawn like the others."""
+    import hypothesis
+    from hypothesis import HealthCheck, Phase, given, settings
+
+    from vf.core import derive_seed, known_buckets, write_replay
+
+    n = 60 if ctx.tier == "quick" else 600
+    progs = []
+
+    @hypothesis.seed(derive_seed(ctx.seed, ID, 998, "twin"))
+    @settings(max_examples=n, database=None, deadline=None, phases=[Phase.generate], suppress_health_check=list(HealthCheck))
+    @given(gen_macro.macro_programs(single_file=True, max_stmts=20))
+    def collect(p):
+        progs.append(p)
+
+    collect()
+    kb = known_buckets(ctx.known)
+    for p in progs:
+        if not p.get("macros"):
+            continue
+        files = _twin_workspace(p)
+        ctx.stats.evaluations += 1
+        ctx.stats.count("twin_library_runs")
+        r = twin_compare(files, ctx.stats)
+        if r is not None and r[0] not in kb and not any(v[0] == r[0] for v in ctx.violations):
+            path = write_replay(ID, r[0], {"kind": "twin", "files": files}, r[1])
+            ctx.violations.append((r[0], path))
+            print(f"  {r[0]}: {r[1][:700]}")
